@@ -236,6 +236,8 @@ class Program:
         from . import moves
         self.moves_undone = moves.undo({m.rel: m.tree for m in self.modules.values()})
         self.moves_undone += moves.undo_signatures({m.rel: m.tree for m in self.modules.values()})
+        self.moves_undone += moves.undo_extractions({m.rel: m.tree for m in self.modules.values()})
+        self.moves_undone += moves.undo_result_ownership({m.rel: m.tree for m in self.modules.values()})
         for m in self.modules.values():
             self._index_imports(m)
         for m in self.modules.values():
